@@ -22,7 +22,7 @@ type EP struct {
 	Identity string
 	// Proto: old (TLS 1.0-1.1 only) | tls12 | tls13 | any
 	Proto string
-	// ClientAuth: none | request | require
+	// ClientAuth: none | request | require | request-otherca | verifyifgiven | verifyifgiven-otherca
 	ClientAuth string
 }
 
@@ -39,7 +39,7 @@ func gen(t *rapid.T) Case {
 		c.Endpoints = append(c.Endpoints, EP{
 			Identity:   rapid.SampledFrom([]string{"caA", "caA", "caB", "caB", "foreign", "selfsigned", "expired", "notyet", "wrongname"}).Draw(t, l+"I"),
 			Proto:      rapid.SampledFrom([]string{"any", "any", "tls12", "tls13", "old"}).Draw(t, l+"P"),
-			ClientAuth: rapid.SampledFrom([]string{"none", "request", "require"}).Draw(t, l+"C"),
+			ClientAuth: rapid.SampledFrom([]string{"none", "request", "require", "request-otherca", "verifyifgiven", "verifyifgiven-otherca"}).Draw(t, l+"C"),
 		})
 	}
 	return c
@@ -70,7 +70,9 @@ func exec(c Case) (vh.Outcome, error) {
 		}
 	}
 	genuine := func(e EP) bool {
-		return (e.Identity == "caA" || e.Identity == "caB") && trusted[e.Identity] && e.Proto != "old"
+		// a server that verifies the client certificate against a CA which did not issue the RA's
+		// certificate refuses the configured certificate: from the RA's side a failed endpoint
+		return (e.Identity == "caA" || e.Identity == "caB") && trusted[e.Identity] && e.Proto != "old" && e.ClientAuth != "verifyifgiven-otherca"
 	}
 	var specs []vh.CAServerSpec
 	var ips []string
@@ -112,7 +114,7 @@ func exec(c Case) (vh.Outcome, error) {
 	}
 	signer, err := crypki.NewSigner(crypki.SignerConfig{
 		TLSClientKeyFile: f.ClientKeyFile(), TLSClientCertFile: f.ClientCertFile(), TLSCACertFiles: files,
-		CrypkiEndpoints: ips, CrypkiPort: uint(g.Port), Retries: 1, PerTryTimeout: 2 * time.Second,
+		CrypkiEndpoints: ips, CrypkiPort: uint(g.Port), Retries: 1, PerTryTimeout: 10 * time.Second,
 	})
 	if err != nil {
 		return out, vh.Errf("NewSigner failed (bundle %v): %v", c.Bundle, err)
@@ -163,7 +165,7 @@ func exec(c Case) (vh.Outcome, error) {
 	return out, nil
 }
 
-const rule = "CA bundles of one or two files (single CA, the other CA, both as separate files, both in one file, a file listed twice); 1..3 endpoints on loopback aliases, each a real gRPC-over-TLS server with identity {issued by configured CA A / CA B with matching IP SAN, by a foreign CA, self-signed, expired, not yet valid, valid for another address} x protocol range {TLS 1.0-1.1 only, 1.2 only, 1.3 only, any} x client-certificate policy {none, request, require+verify}; every server would sign (each with its own certificate, so the answering server is identifiable). Oracle: Sign succeeds iff some endpoint is genuine (issued by a CA of the bundle, right address, valid now, speaks >= TLS 1.2) and the answer is the first such endpoint's; impostors never receive the RPC; negotiated version >= 1.2; when the server asked, the peer certificate is byte-identical to the configured client certificate. Non-trivial: at least one impostor in the list."
+const rule = "CA bundles of one or two files (single CA, the other CA, both as separate files, both in one file, a file listed twice); 1..3 endpoints on loopback aliases, each a real gRPC-over-TLS server with identity {issued by configured CA A / CA B with matching IP SAN, by a foreign CA, self-signed, expired, not yet valid, valid for another address} x protocol range {TLS 1.0-1.1 only, 1.2 only, 1.3 only, any} x client-certificate policy {none, request, require+verify, request while naming another CA, verify-if-given against the right / another client CA}; every server would sign (each with its own certificate, so the answering server is identifiable). Oracle: Sign succeeds iff some endpoint is genuine (issued by a CA of the bundle, right address, valid now, speaks >= TLS 1.2) and the answer is the first such endpoint's; impostors never receive the RPC; negotiated version >= 1.2; when the server asked, the peer certificate is byte-identical to the configured client certificate. Non-trivial: at least one impostor in the list."
 
 func TestC18TLS(t *testing.T) {
 	vh.Run(t, vh.Spec[Case]{Property: "C18", Name: "TestC18TLS", Rule: rule, Gen: gen, Exec: exec})
@@ -174,12 +176,12 @@ func TestC18Grid(t *testing.T) {
 	var cases []Case
 	for _, id := range []string{"caA", "caB", "foreign", "selfsigned", "expired", "notyet", "wrongname"} {
 		for _, pr := range []string{"old", "tls12", "tls13", "any"} {
-			for _, ca := range []string{"none", "request", "require"} {
+			for _, ca := range []string{"none", "request", "require", "request-otherca", "verifyifgiven", "verifyifgiven-otherca"} {
 				cases = append(cases, Case{Bundle: []string{"caA"}, Endpoints: []EP{{id, pr, ca}, {"caA", "any", "request"}}})
 			}
 		}
 	}
 	vh.Enumerate(t, vh.Spec[Case]{Property: "C18", Name: "TestC18Grid", Exhaustive: true,
-		Rule: "bundle = CA A; first endpoint: 7 identities x 4 protocol ranges x 3 client-certificate policies (84 points), second endpoint genuine: the later genuine endpoint must be used exactly when the first is an impostor; same oracle",
+		Rule: "bundle = CA A; first endpoint: 7 identities x 4 protocol ranges x 6 client-certificate policies (168 points), second endpoint genuine: the later genuine endpoint must be used exactly when the first is an impostor; same oracle",
 		Exec: exec}, cases)
 }
